@@ -69,13 +69,17 @@ def handle : Handler := fun op inp impl =>
     let limit := nat (field impl "limit")
     let size := nat (field impl "size")
     let outcome := str (field impl "outcome")
+    let got := nat (field impl "got")
+    let echo := nat (field impl "echo")
+    let n := if isNull (field inp "n") then 1 else nat (field inp "n")
     let want := if accepts limit size then "ok" else "resource_exhausted"
-    let holds := outcome == want && size > 0
+    let holds := holdsSharp limit size (outcome == "ok") (outcome == "resource_exhausted") n got echo
+      && size > 0
     { agree := holds, holds := holds, nontrivial := true,
-      cls := str (field inp "side") ++ ":" ++ outcome,
+      cls := str (field inp "side") ++ ":" ++ str (field inp "stream") ++ ":" ++ outcome,
       model := Json.mkObj [("outcome", want)],
       why := if holds then "" else
-        s!"limit not sharp: message of {size} bytes against limit {limit} gave {outcome} ({str (field impl "detail")}), want {want}" }
+        s!"limit not sharp: message of {size} bytes (position {nat (field inp "pos")} of {n}) against limit {limit} gave {outcome} with {got} messages handed on, the tested one with {echo} bytes ({str (field impl "detail")}); want {want}" }
   | _ => bad ("unknown op " ++ op)
 
 end ConfModel.Driver.C19
